@@ -1,6 +1,7 @@
 //! sim_world: reactive contexts, simulated clients and a simulated SSR server on one seeded task executor.
 //! Builds: world_ssr (shipped server configuration), world_fx (ssr + reactive_graph/effects: Effect and
-//! RenderEffect tasks really run), world_dyn (ssr + dynamic_load, for the embedded translations script).
+//! RenderEffect tasks really run), world_dyn (ssr + dynamic_load, for the embedded translations script),
+//! world_nc (cookie feature off), world_ax (effects + the library's axum feature: default request getters).
 #![allow(clippy::all)]
 leptos_i18n::load_locales!();
 
@@ -22,6 +23,8 @@ use std::time::{Duration, Instant};
 
 const BUILD: &str = if cfg!(feature = "world_nc") {
     "world_nc"
+} else if cfg!(feature = "world_ax") {
+    "world_ax"
 } else if cfg!(feature = "world_fx") {
     "world_fx"
 } else if cfg!(feature = "world_dyn") {
@@ -250,6 +253,7 @@ fn check(args: &[String]) -> i32 {
             Batch { label: "sessions_optional_whitespace", binary: "world_ssr", mode: "session", extra: json!({"ows": true}), runs: if thorough { 200_000 } else { 20_000 } },
             Batch { label: "streaming_render_slice", binary: "world_dyn", mode: "server", extra: json!({}), runs: if thorough { 300_000 } else { 30_000 } },
             Batch { label: "sessions_cookie_feature_off", binary: "world_nc", mode: "session", extra: json!({"ows": false}), runs: if thorough { 200_000 } else { 20_000 } },
+            Batch { label: "sessions_axum_default_getters", binary: "world_ax", mode: "session", extra: json!({"ows": false}), runs: if thorough { 400_000 } else { 40_000 } },
         ],
         "C17" => vec![Batch { label: "streaming_requests", binary: "world_dyn", mode: "server", extra: json!({}), runs: if thorough { 1_000_000 } else { 100_000 } }],
         _ => simkit::harness_error("sim_world serves C15, C16 and C17"),
@@ -383,8 +387,9 @@ fn check(args: &[String]) -> i32 {
         json!({"component": "leptos_i18n (context, sub-context, scopes, fetch_locale, generated accessors and providers, RegisterCtx)", "status": "real, /repo working tree"}),
         json!({"component": "leptos 0.7.8 reactive_graph / tachys streaming / leptos_meta / leptos-use ssr paths (use_cookie, use_locales)", "status": "real, pinned by /repo/Cargo.lock"}),
         json!({"component": "async executor", "status": "simulator (seeded; any_spawner custom executor)"}),
-        json!({"component": "HTTP server, browser, cookie store, request headers", "status": "simulator (headers and Set-Cookie through the injectable closures; HTML reassembled by the harness)"}),
+        json!({"component": "HTTP server, browser, cookie store, request headers", "status": "simulator (headers and Set-Cookie through the injectable closures, or through Parts / ResponseOptions in the world_ax build; HTML reassembled by the harness)"}),
         json!({"component": "wasm client (csr/hydrate paths, router effects)", "status": "not run"}),
+        json!({"component": "world_ax build", "status": "hybrid: world_fx + the library's `axum` feature; the request is an http::request::Parts in the reactive context and Set-Cookie goes to leptos_axum::ResponseOptions (real leptos-use default getters, real leptos_axum types; no axum server)"}),
         json!({"component": "world_fx build", "status": "hybrid: server seams + reactive_graph/effects forced on, so Effect/RenderEffect logic of leptos_i18n executes natively"}),
     ];
     ev.assumptions = vec![
@@ -496,6 +501,11 @@ fn main() {
         }
         Some("check") => check(&args[2..]),
         Some("replay") => replay(&args[2..]),
+        #[cfg(not(feature = "world_dyn"))]
+        Some("best-match") => {
+            session::dump_best_match();
+            0
+        }
         Some("one") => {
             setup_process();
             let req: Value = serde_json::from_str(&args[2]).expect("request json");
